@@ -435,6 +435,10 @@ def s_Reach_least(ev, D, q, Tt): return SV(BOOL, Reach_least(dfa_delta_val(D), r
 @spec('Reach1_least')
 def s_Reach1_least(ev, D, q, Tt): return SV(BOOL, Reach_least(dfa_delta_val(D), rec_get(D, 'Sigma').z, q.z, Tt.z, True))
 
+def _reach_in_q():
+    D = SV(REC('DFA'), _D)
+    return ForAll([_D, _q, _x], Implies(And(s_dfa_wf(None, D).z, Select(rec_get(D, 'Q').z, _q), Select(Reach(dfa_delta_val(D), rec_get(D, 'Sigma').z, _q), _x)), Select(rec_get(D, 'Q').z, _x)))
+axiom('dfa', 'lemma', 'Reach-in-Q', _reach_in_q())
 _d2 = Const('d2', DeltaD)
 axiom('dfa', 'lemma', 'restrict-sim', ForAll([_d, _d2, _S, _q, _w], Implies(And(ForAll([_x, _a], Implies(And(Select(Reach(_d, _S, _q), _x), Select(_S, _a)), Select(_d2, mkKey2(_x, _a)) == Select(_d, mkKey2(_x, _a)))), over(_S, _w)),
                                                                             And(dhat(_d2, _q, _w) == dhat(_d, _q, _w), Select(Reach(_d, _S, _q), dhat(_d, _q, _w))))))
@@ -461,3 +465,46 @@ axiom('dfa', 'lemma', 'product-sim', _prod_sim())
 
 @spec('prod_struct')
 def s_prod_struct(ev, D1, D2, R): return SV(BOOL, prod_struct(D1, D2, R))
+
+
+# ====================================================================== DFA isomorphism (C20)
+HMap = ArraySort(Atom, Atom)
+_DFAs = sort_of(REC('DFA'))
+isofn = Function('isofn', _DFAs, _DFAs, HMap)      # a chosen isomorphism of the reachable parts, if one exists
+
+
+def iso_pred(h, D1, D2):
+    """h is an isomorphism between the reachable parts of D1 and D2"""
+    d1, d2 = dfa_delta_val(D1), dfa_delta_val(D2); Sg = rec_get(D1, 'Sigma').z
+    R1 = Reach(d1, Sg, rec_get(D1, 'q0').z); R2 = Reach(d2, rec_get(D2, 'Sigma').z, rec_get(D2, 'q0').z)
+    x, y, a = fresh_z('x', Atom), fresh_z('y', Atom), fresh_z('a', Atom)
+    return And(Select(h, rec_get(D1, 'q0').z) == rec_get(D2, 'q0').z,
+               ForAll([x], Implies(Select(R1, x), Select(R2, Select(h, x)))),
+               ForAll([x, a], Implies(And(Select(R1, x), Select(Sg, a)), Select(h, Select(d1, mkKey2(x, a))) == Select(d2, mkKey2(Select(h, x), a)))),
+               ForAll([x], Implies(Select(R1, x), Select(rec_get(D1, 'F').z, x) == Select(rec_get(D2, 'F').z, Select(h, x)))),
+               ForAll([x, y], Implies(And(Select(R1, x), Select(R1, y), Select(h, x) == Select(h, y)), x == y)))
+
+
+_h = Const('h', HMap)
+axiom('iso', 'def', 'isofn-choice (definition of the chosen isomorphism: any isomorphism witnesses it)',
+      ForAll([_D1, _D2, _h], Implies(iso_pred(_h, SV(REC('DFA'), _D1), SV(REC('DFA'), _D2)), iso_pred(isofn(_D1, _D2), SV(REC('DFA'), _D1), SV(REC('DFA'), _D2)))))
+
+
+iso_b = Function('isomorphic', _DFAs, _DFAs, BoolSort())     # opaque name for "the chosen map is an isomorphism" (hide / reveal)
+axiom('iso', 'def', 'isomorphic-def', ForAll([_D1, _D2], iso_b(_D1, _D2) == iso_pred(isofn(_D1, _D2), SV(REC('DFA'), _D1), SV(REC('DFA'), _D2))))
+
+
+@spec('isomorphic')
+def s_isomorphic(ev, D1, D2): return SV(BOOL, iso_b(D1.z, D2.z))
+@spec('iso_chosen')
+def s_iso_chosen(ev, D1, D2): return SV(MAP(ATOM, ATOM), None)
+@spec('is_iso')
+def s_is_iso(ev, m, D1, D2):
+    """the (total extension of the) map m is an isomorphism of the reachable parts"""
+    return SV(BOOL, iso_pred(map_val(m), D1, D2))
+@spec('hval')
+def s_hval(ev, D1, D2, x): return SV(ATOM, Select(isofn(D1.z, D2.z), x.z))
+
+
+@spec('keys')
+def s_keys(ev, m): return SV(SET(m.t.args[0]), map_dom(m))
